@@ -94,6 +94,9 @@ M = [
  ("c08-thread-unsynchronised-scratch", ["C08"], "vaporetto/src/predictor.rs",
   "        sentence.score_padding = WEIGHT_FIXED_LEN - 1;\n        sentence.boundary_scores.clear();\n        sentence.boundary_scores.resize(\n            sentence.score_padding * 2 + sentence.len() - 1,\n            self.data.bias,\n        );",
   "        struct Scratch(core::cell::UnsafeCell<usize>);\n        unsafe impl Sync for Scratch {}\n        static SCRATCH: Scratch = Scratch(core::cell::UnsafeCell::new(0));\n        unsafe { *SCRATCH.0.get() = sentence.len() };\n        sentence.score_padding = WEIGHT_FIXED_LEN - 1;\n        sentence.boundary_scores.clear();\n        sentence.boundary_scores.resize(\n            sentence.score_padding * 2 + unsafe { *SCRATCH.0.get() } - 1,\n            self.data.bias,\n        );"),
+ ("c05-tokenized-redundant-escape-changes-char", ["C05"], "vaporetto/src/sentence.rs",
+  "                // escaped character or other character\n                (_, _) => {\n                    escape = false;\n                    if c == '\\0' {\n                        return Err(VaporettoError::invalid_argument(\n                            \"tokenized_text\",",
+  "                // escaped character or other character\n                (_, c) => {\n                    let c = if escape && c == 'a' { 'A' } else { c };\n                    escape = false;\n                    if c == '\\0' {\n                        return Err(VaporettoError::invalid_argument(\n                            \"tokenized_text\","),
 ]
 
 def main():
